@@ -192,6 +192,27 @@ def normalize (textTyped : Bool) : Drv → Param
   | .time _ => .s "<rfc3339>"
   | .nil => .null
 
+/-- the per-column type string `queryStmtWithConn` keeps (`xTypes[i]`), as far as `isTextType` cares -/
+inductive ColType where
+  | empty      -- no declared type: untyped column, expression
+  | textLike   -- text, json, varchar…, nchar…, clob
+  | other      -- integer, real, blob, numeric, boolean, …
+deriving Repr, DecidableEq
+
+def isTextTy : ColType → Bool
+  | .empty => true
+  | .textLike => true
+  | .other => false
+
+/-- `populateEmptyTypes`, run ONCE after the first row: an empty type becomes the type of the first
+row's (already normalised) value; a NULL leaves it empty - for good, since the flag is cleared -/
+def populate : ColType → Param → ColType
+  | .empty, .s _ => .textLike
+  | .empty, .sBytes _ => .textLike
+  | .empty, .null => .empty
+  | .empty, _ => .other
+  | t, _ => t
+
 /-- a JSON value in the response -/
 inductive JOut where
   | num (z : Int)
@@ -219,6 +240,16 @@ def encode (blobArray : Bool) : Param → Option JOut
 def readback (decl : Decl) (textTyped blobArray : Bool) (v : SqlVal) : Option JOut :=
   encode blobArray (normalize textTyped (drv decl v))
 
+/-- one column of a multi-row result, as the row loop of `queryStmtWithConn` produces it: every value
+is normalised with `isTextType(xTypes[i])` evaluated AT THAT MOMENT - the declared type for the first
+row, the populated type for all later rows -/
+def readColumn (decl : Decl) (t : ColType) (blobArray : Bool) : List SqlVal → List (Option JOut)
+  | [] => []
+  | v :: rest =>
+    let p := normalize (isTextTy t) (drv decl v)
+    let t' := populate t p
+    encode blobArray p :: rest.map fun w => encode blobArray (normalize (isTextTy t') (drv decl w))
+
 /-- `NewAssociativeRowsFromQueryRows`: `m[c] = values[i][ii]` for each column in turn - a Go map,
 so for a repeated column name the LAST value wins. The value the associative row holds for `c`: -/
 def assocGet (cols : List String) (vals : List JOut) (c : String) : Option JOut :=
@@ -228,6 +259,7 @@ def assocGet (cols : List String) (vals : List JOut) (c : String) : Option JOut 
 `param <jparam>` → `<param>` | `error`
 `bind <param>` → `<sqlval>`
 `read <plain|datetime|boolean> <0|1 text-typed column> <0|1 blob_array> <sqlval>` → `<jout>` | `error`
+`readcol <plain|datetime|boolean> <e|t|o declared type> <0|1 blob_array> <sqlval,sqlval,…>` → `<jout>,<jout>,…`
 tokens: jparam `i:<int>` `f:<hex tok>` `finf:<0|1>` `b:<0|1>` `n` `s:<hex>` `a:<e,e,…>|a:-` (element `x` = not an integer) `o`;
 param `I:<int>` `D:<hex tok>` `Dinf:<0|1>` `B:<0|1>` `Y:<hex>` `S:<hex>` `N`;
 sqlval `integer:<int>` `real:<hex tok>` `realinf:<0|1>` `text:<hex>` `blob:<hex>` `null`;
@@ -314,7 +346,7 @@ def joutStr : JOut → String
   | .str t => "str:" ++ hexOfString t
   | .b64 bs => "b64:" ++ hexOfBytes bs
   | .arr bs => "arr:" ++ hexOfBytes bs
-  | .lossyStr bs => "lossy:" ++ hexOfBytes bs
+  | .lossyStr bs => if bs.isEmpty then "b64:x" else "lossy:" ++ hexOfBytes bs   -- "" either way
   | .null => "null"
 
 def parseDecl (t : String) : Option Decl :=
@@ -331,6 +363,12 @@ def step (d : DState) (line : String) : DState × String :=
     match parseParam t with
     | some p => (d, sqlStr (bindParam p))
     | none => (d, "bad-op")
+  | ["readcol", dt, ct, ba, vs] =>
+    match parseDecl dt, (if ct == "e" then some ColType.empty else if ct == "t" then some .textLike
+            else if ct == "o" then some .other else none), bit ba, (vs.splitOn ",").mapM parseSql with
+    | some dt, some ct, some ba, some vals =>
+      (d, ",".intercalate ((readColumn dt ct ba vals).map fun o => match o with | some j => joutStr j | none => "error"))
+    | _, _, _, _ => (d, "bad-op")
   | ["read", dt, tt, ba, t] =>
     match parseDecl dt, bit tt, bit ba, parseSql t with
     | some dt, some tt, some ba, some v =>
